@@ -154,7 +154,16 @@ def install_crystal_contract(which=('C18',)):
 # ---------------------------------------------------------------------------------------
 # C03: transport tensors are symmetric, crystal invariant and (where stated) PSD
 # ---------------------------------------------------------------------------------------
-def tensor2_contract(mon, crys, T, name, psd, scale=None, tol=1e-9, prefix='C03'):
+def axial_point_group(crys):
+    """True iff the point group leaves an axial vector (3-D) / the pseudo-scalar (2-D) invariant: then a second-rank
+    cross tensor such as the solute-vacancy coefficient may have an antisymmetric part."""
+    rots = [g.cartrot for g in crys.G]
+    if crys.dim == 2:
+        return abs(sum(np.linalg.det(R) for R in rots)) / len(rots) > 1e-8
+    return np.abs(sum(np.linalg.det(R) * R for R in rots)).max() / len(rots) > 1e-8
+
+
+def tensor2_contract(mon, crys, T, name, psd, scale=None, tol=1e-9, prefix='C03', symmetric=True):
     T = np.asarray(T)
     dim = crys.dim
     mon.count('tensors_checked')
@@ -162,7 +171,9 @@ def tensor2_contract(mon, crys, T, name, psd, scale=None, tol=1e-9, prefix='C03'
                      lambda: 'shape %s value %s' % (T.shape, T.tolist())):
         return
     sc = scale if scale is not None else max(np.abs(T).max(), 1e-300)
-    mon.close(T, T.T, tol, prefix + ':symmetric:' + name, scale=sc)
+    if symmetric:
+        mon.close(T, T.T, tol, prefix + ':symmetric:' + name, lambda: 'T=%s' % T.tolist(), scale=sc,
+                  tags=(['axial_point_group'] if axial_point_group(crys) else []))
     worst = max(np.abs(g.cartrot @ T @ g.cartrot.T - T).max() for g in crys.G)
     mon.seen('point_group_orders', len(crys.G))
     mon.check(worst <= tol * sc, prefix + ':invariant:' + name, lambda: 'max_g |R T R^T - T| = %.3e scale %.3e T=%s' % (worst, sc, T.tolist()))
